@@ -213,6 +213,10 @@ class ProcessStartCommand(ProcessCommand):
         :return: the request status.
         """
         instance_info = self.get_instance_info()
+        if instance_info is None:
+            # the process has been removed from the Supvisors instance since the request (e.g. update_numprocs)
+            self.logger.error(f'ProcessStartCommand.on_event: {self.process.namespec} removed from {self.identifier}')
+            return ProcessRequestResult.FAILED
         process_state = instance_info['state']
         if process_state == ProcessStates.STARTING:
             # all right, on the way
@@ -262,6 +266,10 @@ class ProcessStartCommand(ProcessCommand):
         """
         # check the process state on the targeted Supvisors instance
         instance_info = self.get_instance_info()
+        if instance_info is None:
+            # the process has been removed from the Supvisors instance since the request (e.g. update_numprocs)
+            self.logger.error(f'ProcessStartCommand.timed_out: {self.process.namespec} removed from {self.identifier}')
+            return ProcessStates.STARTING, ProcessRequestResult.TIMED_OUT, 0
         process_state = instance_info['state']
         process_state_date = instance_info['event_time']
         # if the evaluation is done in the RUNNING state, the EXITED state must be expected
@@ -346,6 +354,10 @@ class ProcessStopCommand(ProcessCommand):
         :return: the request status
         """
         instance_info = self.get_instance_info()
+        if instance_info is None:
+            # the process has been removed from the Supvisors instance since the request (e.g. update_numprocs)
+            self.logger.info(f'ProcessStopCommand.on_event: {self.process.namespec} removed from {self.identifier}')
+            return ProcessRequestResult.SUCCESS
         process_state = instance_info['state']
         # check if process event has an impact on stopping in progress
         if process_state in STOPPED_STATES:
@@ -363,6 +375,10 @@ class ProcessStopCommand(ProcessCommand):
         """
         # check the process state on the targeted Supvisors instance
         instance_info = self.get_instance_info()
+        if instance_info is None:
+            # the process has been removed from the Supvisors instance since the request (e.g. update_numprocs)
+            self.logger.info(f'ProcessStopCommand.timed_out: {self.process.namespec} removed from {self.identifier}')
+            return ProcessStates.STOPPED, ProcessRequestResult.SUCCESS, 0
         process_state = instance_info['state']
         process_state_time = instance_info['event_time']
         if process_state == ProcessStates.STOPPING:
